@@ -32,9 +32,20 @@ NAMES = [[], ["cn"], ["a", "b-c"], ["commonName", "cn", "x-1"]]
 EXTS = [{}, {"FOO": ["v"]}, {"A": ["v1", "v2"], "B-C_d": ["it's"]}, {"ORIGIN": ["RFC 4519"], "x": ["a\\b", "c'd", "e|f"]}]
 
 
+_KEYWORDS = {"NAME", "DESC", "OBSOLETE", "SUP", "ABSTRACT", "STRUCTURAL", "AUXILIARY", "MUST", "MAY", "AUX", "NOT", "EQUALITY", "ORDERING", "SUBSTR",
+             "SYNTAX", "SINGLE-VALUE", "COLLECTIVE", "NO-USER-MODIFICATION", "USAGE", "userApplications", "directoryOperation",
+             "distributedOperation", "dSAOperation"}
+
+
 def check_def(cls, d):
     try:
         text = str(d)
+        # parsing has no memory: the same definition with every non-keyword token in the other letter case is parsed first in
+        # this process (whatever it yields); a spelling remembered from it must not come back in the result for the original text
+        try:
+            cls.from_string(" ".join(t if t in _KEYWORDS else t.swapcase() for t in text.split(" ")))
+        except Exception:
+            pass
         back = cls.from_string(text)
     except Exception as e:
         return [("C16", "from_string(str(d)) == d", repr(d)[:260], f"{type(e).__name__}: {str(e)[:100]}")]
